@@ -395,9 +395,9 @@ def coq_octets(data):
 
 
 BIG_ENC = ('(fun b : bundle => let o := impl_encode_bundle b in '
-           '(N.of_nat (length o), DTN.Lib.Crc.crc32c o, [bytes_eqb o (impl_encode_bundle (with_crc_bundle b)); wf_bundleb b]))')
+           '(N.of_nat (List.length o), DTN.Lib.Crc.crc32c o, [bytes_eqb o (impl_encode_bundle (with_crc_bundle b)); wf_bundleb b]))')
 BIG_DEC = ('(fun bs : bytes => match decode_bundle bs with '
-           '| Some b => Some (ren_primary b.(prim), map (fun k => (fst (fst (ren_cblock k)), N.of_nat (length (btsd k)), '
+           '| Some b => Some (ren_primary b.(prim), map (fun k => (fst (fst (ren_cblock k)), N.of_nat (List.length (btsd k)), '
            'DTN.Lib.Crc.crc32c (btsd k), ren_opt (bcrc k))) b.(blocks), bytes_eqb (impl_encode_bundle b) bs) | None => None end)')
 
 
